@@ -14,7 +14,9 @@ with (`jsonToDe`, `mvalToDe`) → `flatten` (what the serializer receives:
 `bridge_refines_transcoder`) → rmp_serde's / serde_json's serializer as a state
 machine over the op stream (`opsToMsgpack`, `opsToJson`) → framing.  The model
 is tied to /repo by the `j2m` / `m2j` correspondence engines
-(harness/src/engines/bridge.rs): byte-exact on float-free input.
+(harness/src/engines/bridge.rs): byte-exact on float-free input, including what
+a failing MessagePack document had already streamed out (`msgpack2jsonX`,
+`failing_document_streamed`).
 
 The common denotation `Den` (`Lemmas/Bridge.lean`): null, bool, integer,
 binary64 bits, code points, bytes, sequence, map with ORDERED entries.
@@ -145,9 +147,11 @@ theorem non_minimal_spellings_irrelevant (P : FloatIO) (bs : List Nat) (hb : ∀
   rw [msgpackSource_of_reader mode bs docs h', msgpackSource_of_reader mode' _ docs hmin]
 
 /-- The driver answers `m2j … slice` for long inputs by running the reader
-loop: for EVERY input both supply modes produce the same output bytes, read
-the same documents, and the verdicts are `ok` together and a serializer
-refusal together (the same one). -/
+loop first: for EVERY input both supply modes read the same documents, write
+the same bytes for them, and the verdicts are `ok` together and a serializer
+refusal together (the same one) — so unless the run ends in a source failure
+(where the two modes differ in what the failing document leaves behind, and the
+driver runs the real slice loop) the slice answer is the reader answer. -/
 theorem m2j_slice_answer_eq_reader (P : FloatIO) (bs : List Nat) :
     (msgpackSource .slice bs).1 = (msgpackSource .reader bs).1 ∧
     (msgpack2json P .slice bs).out = (msgpack2json P .reader bs).out ∧
@@ -231,6 +235,47 @@ example (P : FloatIO) :
     opsToJsonPartial P (flatten (mvalToDe (.map [(.nil, .uint 1)]))) = ([0x7B], some keyMustBeString) := by
   simp [opsToJsonPartial, mvalToDe, mvalToDePairs, flatten, flattenEntries, runOps, jsonStep, jsonSep,
     JSt.init, JSt.put, jsonKey]
+
+/-! ## The document at which a MessagePack source fails -/
+
+/-- `msgpack2jsonX` (what the `m2j` engine answers with) refines `msgpack2json`
+only where that ends in a source failure:
+
+1. `decodeOps`, the decoder that keeps the ops issued before a failure, agrees
+   with the reference decoder — on success it issues exactly
+   `flatten (mvalToDe v)` for the value `decodeG` returns and leaves the same
+   rest, and it fails exactly when `decodeG` fails, with the same error;
+2. when `msgpack2json` succeeds or ends in a refusal inside a complete
+   document, `msgpack2jsonX` IS `msgpack2json`;
+3. otherwise it keeps all complete documents, appends what serde_json had
+   written of the failing document, and reports a refusal only if one preceded
+   the decoder's failure (the first failure in execution order). -/
+theorem failing_document_streamed (P : FloatIO) (mode : Mode) (bs : List Nat) :
+    (∀ d x, OpsSpec (Msgpack.decodeG false d x) (decodeOps d x)) ∧
+    ((∀ v, (msgpack2json P mode bs).verdict ≠ .srcMsgpack v) →
+      msgpack2jsonX P mode bs = msgpack2json P mode bs) ∧
+    (∀ v, (msgpack2json P mode bs).verdict = .srcMsgpack v →
+      (msgpack2jsonX P mode bs).out = (msgpack2json P mode bs).out ++ (failingDoc P mode bs).1 ∧
+      (msgpack2jsonX P mode bs).verdict =
+        (match (failingDoc P mode bs).2 with
+         | some e => Verdict.ser e
+         | none => Verdict.srcMsgpack v)) :=
+  ⟨decodeOps_spec, msgpack2jsonX_eq P mode bs, msgpack2jsonX_src P mode bs⟩
+
+/-- `[1, <truncated>`: serde_json has written `[1,` — the separating comma
+precedes the failing element's `deserialize_any` — and the decoder's failure
+(no marker byte) is the verdict; `{nil: <truncated>`: the refusal of the key
+comes first. -/
+example (P : FloatIO) :
+    decodeOps 5 [0x92, 0x01] = ([.seqBegin, .elemPre, .scalar (.u64 1), .elemPost, .elemPre], .error .eofMarker) ∧
+    opsToJsonPartial P (decodeOps 5 [0x92, 0x01]).1 = ([0x5B, 0x31, 0x2C], none) ∧
+    (opsToJsonPartial P (decodeOps 5 [0x81, 0xc0]).1).2 = some keyMustBeString := by
+  refine ⟨rfl, ?_, ?_⟩
+  · simp [opsToJsonPartial, show (decodeOps 5 [0x92, 0x01]).1 =
+      [.seqBegin, .elemPre, .scalar (.u64 1), .elemPost, .elemPre] from rfl, runOps, jsonStep, jsonSep,
+      JSt.init, JSt.put, jsonScalar, Json.natDec]
+  · simp [opsToJsonPartial, show (decodeOps 5 [0x81, 0xc0]).1 =
+      [.mapBegin, .keyPre, .scalar .unit, .keyPost, .valPre] from rfl, runOps, jsonStep, jsonSep, JSt.init, JSt.put, jsonKey]
 
 /-! ## JSON → MessagePack -/
 
@@ -592,6 +637,7 @@ example : (⟨fun _ => 0x3FF8000000000000, fun _ => [0x31, 0x2E, 0x35], fun _ =>
 #print axioms m2j_slice_answer_eq_reader
 #print axioms unrepresentable_is_error
 #print axioms bin_value_becomes_array
+#print axioms failing_document_streamed
 #print axioms json_to_msgpack_fidelity_of_wf
 #print axioms json_to_msgpack_fidelity
 #print axioms json_to_msgpack_fidelity_documents
